@@ -12,7 +12,7 @@ pub fn check() -> Check {
         id: "C15",
         title: "Negotiation messages round-trip and malformed input is rejected safely",
         level: Level::FaultEnumeration,
-        rule: "scenarios: wire-image (honest pairs: both directions' tapped bytes must equal the hand-written reference encoding of the expected message sequence, every frame prefix <= 2 bytes), ls (scripted raw dialer sends header+ls, answer must equal the reference encoding of the listener's valid protocols), hostile-listener / hostile-dialer (enumerated hostile cases x drawn chunking: random bytes, 3-byte varints, frames of 16383/16384 declared bytes, 1000 vs 1001 listed protocols, names without '/', missing newline, truncation at every offset of a valid exchange). Panics are caught per run and are violations. Non-trivial = the peer produced at least one frame that the code under test had to parse; distinct = fingerprint of (case kind, chunking, outcome)",
+        rule: "scenarios: wire-image (honest pairs: both directions' tapped bytes must equal the hand-written reference encoding of the expected message sequence, every frame prefix <= 2 bytes), ls (scripted raw dialer sends header+ls, answer must equal the reference encoding of the listener's valid protocols), hostile-listener / hostile-dialer (enumerated hostile cases x drawn chunking: random bytes, 3-byte varints, frames of 16383/16384 declared bytes, 1000 vs 1001 listed protocols, names without '/', missing newline, truncation at every offset of a valid exchange), oversize-outgoing (the local side itself would have to send more than MAX_FRAME_SIZE: protocol names of 16381..70000 bytes proposed by the dialer, ls answers over 10..999 protocols; every frame on the wire keeps a <= 2 byte prefix and <= 16383 bytes, the negotiation ends with an error, a message that just fits is sent). Panics are caught per run and are violations. Non-trivial = the peer produced at least one frame that the code under test had to parse; distinct = fingerprint of (case kind, chunking, outcome)",
         assumptions: &["reference encoder/parser in the harness is written from the multistream-select spec, not from the code under test"],
         real: &["multistream_select listener/dialer futures", "Message::encode/decode", "LengthDelimited"],
         stub: &["socket -> simkit::pipe; hostile peer = scripted raw bytes"],
@@ -22,6 +22,7 @@ pub fn check() -> Check {
             Scenario::new("hostile-listener", 2500, 200_000, hostile_listener),
             Scenario::new("hostile-dialer", 2500, 200_000, hostile_dialer),
             Scenario::new("truncate-every-offset", 200, 10_000, truncate_every_offset),
+            Scenario::new("oversize-outgoing", 300, 10_000, oversize_outgoing),
         ],
     }
 }
@@ -105,6 +106,107 @@ fn wire_image() -> SimResult {
     }
     mark_nontrivial();
     set_sample(|| format!("wire-image: name lengths {:?}, listener supports index {idx:?}", d.iter().map(|x| x.len()).collect::<Vec<_>>()));
+    Ok(())
+}
+
+/// Generic frame walk over bytes written by the code under test: (frame lengths, prefix lengths); stops at a partial tail.
+fn walk_frames(b: &[u8]) -> Vec<(usize, usize)> {
+    let mut out = vec![];
+    let mut i = 0;
+    while i < b.len() {
+        let (mut len, mut shift, mut k) = (0usize, 0u32, 0usize);
+        loop {
+            if i + k >= b.len() || k >= 9 {
+                return out;
+            }
+            let x = b[i + k];
+            len |= ((x & 0x7f) as usize) << shift;
+            shift += 7;
+            k += 1;
+            if x & 0x80 == 0 {
+                break;
+            }
+        }
+        out.push((len, k));
+        i += k + len;
+    }
+    out
+}
+
+/// Messages the local side itself would have to send beyond the frame limit (a protocol name of ~16 KiB, an `ls`
+/// answer over many protocols): nothing longer than MAX_FRAME_SIZE = 16383 bytes may go out, whatever else happens,
+/// and the negotiation must end (with an error) instead of hanging.
+fn oversize_outgoing() -> SimResult {
+    draw_policy();
+    const MAX: usize = (1 << 14) - 1;
+    let long_name = |len: usize| -> String {
+        let mut s = String::from("/big/");
+        while s.len() < len {
+            s.push((b'a' + (s.len() % 26) as u8) as char);
+        }
+        s
+    };
+    let (a, raw) = pipe::pair_raw(PipeCfg { capacity: 1 << 20, ..PipeCfg::draw() });
+    let as_dialer = choose(2) == 0;
+    let (u, out, what, must_fail);
+    let mut expect_frame = None;
+    if as_dialer {
+        // name + newline around the limit
+        let len = [MAX - 2, MAX - 1, MAX, MAX + 1, 20_000, 40_000, 65_534, 70_000][choose(8)];
+        let mut protos = vec![long_name(len)];
+        if choose(2) == 0 {
+            protos.insert(0, "/not/supported".to_string());
+        }
+        must_fail = len + 1 > MAX;
+        if !must_fail {
+            expect_frame = Some(len + 1);
+        }
+        what = format!("dialer proposing a name of {len} bytes");
+        let v = if choose(2) == 0 { Version::V1 } else { Version::V1Lazy };
+        let (uu, oo) = spawn_dialer(a, protos, v);
+        u = uu;
+        out = oo;
+        let mut reply = vec![];
+        frame(HEADER, &mut reply);
+        frame(b"na\n", &mut reply);
+        frame(b"na\n", &mut reply);
+        raw.send(&reply);
+    } else {
+        // ls over n protocols of m bytes: body = n * (prefix + m + 1) + 1
+        let (n, m) = [(10usize, 100usize), (100, 150), (163, 99), (164, 99), (400, 60), (800, 37), (999, 64)][choose(7)];
+        let protos: Vec<String> = (0..n).map(|i| long_name(m - 4) + &format!("{i:04}")).collect();
+        let body: usize = protos.iter().map(|p| p.len() + 1 + if p.len() + 1 > 127 { 2 } else { 1 }).sum::<usize>() + 1;
+        must_fail = body > MAX;
+        if !must_fail {
+            expect_frame = Some(body);
+        }
+        what = format!("listener answering ls with {n} protocols of {m} bytes (body {body})");
+        let (uu, oo) = spawn_listener(a, protos);
+        u = uu;
+        out = oo;
+        let mut req = vec![];
+        frame(HEADER, &mut req);
+        frame(b"ls\n", &mut req);
+        raw.send(&req);
+    }
+    let mut got = pump(&raw);
+    raw.close_write();
+    got.extend(pump(&raw));
+    let frames = walk_frames(&got);
+    for (k, (len, prefix)) in frames.iter().enumerate() {
+        ensure!(*prefix <= 2 && *len <= MAX, "C15/prefix", "{what}: frame {k} went out with a {prefix} byte length prefix announcing {len} bytes (limit {MAX})");
+    }
+    ensure!(is_done(u), "C15/oversize-hang", "{what}: the negotiation did not end after the remote closed");
+    if must_fail {
+        probe("oversize_outgoing_refused");
+        ensure!(!matches!(&*out.borrow(), Some(Out::Ok(_))), "C15/oversize-accepted", "{what}: negotiation reported success: {:?}", out.borrow());
+    } else {
+        probe("large_outgoing_within_limit");
+        ensure!(frames.iter().any(|(len, _)| Some(*len) == expect_frame), "C15/large-frame-missing", "{what}: the message of {expect_frame:?} bytes fits the frame limit but was not sent (frames {:?})", frames.iter().map(|f| f.0).collect::<Vec<_>>());
+    }
+    mark_nontrivial();
+    note_val("case", as_dialer as u64 + 2 * must_fail as u64);
+    set_sample(|| format!("{what}: frames {:?}, outcome {:?}", frames.iter().map(|f| f.0).collect::<Vec<_>>(), out.borrow()));
     Ok(())
 }
 
